@@ -90,14 +90,16 @@ macro_rules! common_impl {
             /// fail the k-th call (1-based) at entry
             pub fail_at: Option<u32>,
             pub ncalls: u32,
+            /// draw_iter stops pulling pixels after this many (the call is then logged with over = true)
+            pub cap: usize,
             _c: PhantomData<C>,
         }
         impl<C: Col> $name<C> {
             pub fn new(bbox: Rectangle) -> Self {
-                $name { bbox, calls: vec![], fail_at: None, ncalls: 0, _c: PhantomData }
+                $name { bbox, calls: vec![], fail_at: None, ncalls: 0, cap: 8_000_000, _c: PhantomData }
             }
             pub fn failing(bbox: Rectangle, k: u32) -> Self {
-                $name { bbox, calls: vec![], fail_at: Some(k), ncalls: 0, _c: PhantomData }
+                $name { bbox, calls: vec![], fail_at: Some(k), ncalls: 0, cap: 8_000_000, _c: PhantomData }
             }
             fn enter(&mut self, m: &'static str, area: Rectangle, color: i64) -> Result<(), FaultErr> {
                 self.ncalls += 1;
@@ -187,10 +189,10 @@ impl<C: Col> DrawTarget for LogDefault<C> {
         // the pixel stream itself is always finite; the cap only guards against a broken library.
         let mut px = Vec::new();
         for Pixel(p, c) in pixels.into_iter() {
-            px.push((p.x, p.y, c.raw()));
-            if px.len() > 8_000_000 {
+            if px.len() >= self.cap {
                 break;
             }
+            px.push((p.x, p.y, c.raw()));
         }
         self.calls.push(Call::DrawIter { px });
         Ok(())
